@@ -63,6 +63,7 @@ type PathState struct {
 	permuteBudget int
 	known     map[*smt.Term]bool
 	failDetail Value
+	atomicOps int
 	nameCount map[string]int
 	uninterp  map[string]*smt.Term
 	stubFlags []stubFlag
